@@ -25,3 +25,6 @@ pub(crate) fn point(name: &'static str) {
         hook(name);
     }
 }
+
+/// Hooks of the synchronization shim the pool's atomics and mutexes go through.
+pub use crate::verif_sync::{AtomicOp, Hooks, install};
